@@ -565,6 +565,9 @@ func VerifHarness_C15_step() {
 			verifrt.Assume(present && cur.sym)
 			wantErr = true
 			err = w.casBad(n, newSym, verifC15Val{sym: true, target: "refs/heads/other"})
+		case 7: // CheckAndSet(name, symbolic, old = current value): the new file content is shorter than a hash (added after seed C15-2)
+			verifrt.Assume(present)
+			err = w.casGood(n, newSym)
 		}
 
 		verifrt.Known("C15-packrefs-packs-symbolic-refs", w.evSymPacked)
